@@ -260,6 +260,18 @@ func runC18(e *core.Env) {
 		en.RDeny = [][]string{nil, {".*/lib"}}[e.Choose("gen", 2, "rdeny")]
 		entries = append(entries, en)
 	}
+	// one source repository may be broken for good (its blobs answer 404, as after a botched garbage collection on the
+	// source): whatever cannot be copied then, the run must not report success while a selected tag is not mirrored
+	if e.Choose("gen", 6, "brokenrepo") == 5 {
+		broken := "/v2/" + repos[e.Choose("gen", 2, "whichbroken")] + "/blobs/"
+		net.Hook = func(x *simnet.Exchange) *simnet.Fault {
+			if x.Host == "src.test" && x.Method == "GET" && strings.HasPrefix(x.Path, broken) {
+				return &simnet.Fault{Kind: simnet.F404}
+			}
+			return nil
+		}
+		e.Probe("source-repository-with-unreadable-blobs")
+	}
 	parallel := e.Choose("gen", 5, "parallel")
 	var cfg strings.Builder
 	cfg.WriteString("version: 1\ndefaults:\n  skipDockerConfig: true\n")
